@@ -128,6 +128,55 @@ Theorem undefined_rooting_order_refuted :
 Proof. exact undefined_rooting_order_refuted_l. Qed.
 Print Assumptions undefined_rooting_order_refuted.
 
+(* The repaired forms (Model: extend_r / plus_r = "return on an empty argument, an empty receiver of
+   undefined rooting takes over the argument's rooting"; add_tree_r = "an undefined rooting is
+   treated as unrooted before validate_rooting").  The harness determines on every run which form
+   the working tree has (evidence: notes) and checks the correspondence against that form.  Under
+   the repaired forms the full-strength statements hold: *)
+Theorem extend_total_repaired : forall a b,
+  ta_ign_el a = ta_ign_el b -> ta_ign_ages a = ta_ign_ages b -> ta_use_w a = ta_use_w b ->
+  ta_splits b = [] \/ (ta_splits a = [] /\ ta_rooting a = None) \/ ta_rooting a = ta_rooting b ->
+  exists t', extend_r a b = (t', None) /\
+             (ta_splits b = [] -> t' = a) /\
+             (ta_splits b <> [] ->
+              ta_splits t' = ta_splits a ++ ta_splits b /\ ta_elens t' = ta_elens a ++ ta_elens b /\
+              ta_leafsets t' = ta_leafsets a ++ ta_leafsets b /\ ta_weights t' = ta_weights a ++ ta_weights b /\
+              ta_sd t' = sd_update (ta_sd a) (ta_sd b) /\ ta_rooting t' = ta_rooting b).
+Proof. exact extend_r_total_l. Qed.
+Print Assumptions extend_total_repaired.
+
+(* ... the witness of extend_total_refuted is accepted by the repaired form, in both directions *)
+Theorem extend_repaired_example :
+  exists a b ab ba,
+    a = fst (add_tree (new_cfg ex_cfg) (ex_rec (Some false)) None) /\ b = new_cfg ex_cfg /\
+    extend_r a b = (a, None) /\ extend_r b a = (ba, None) /\ plus_r a b = (Some ab, None) /\
+    plus_r b a = (Some ba, None) /\ ta_rooting ba = Some false /\ ta_splits ba = ta_splits a.
+Proof. exact extend_r_example_l. Qed.
+Print Assumptions extend_repaired_example.
+
+(* ... and with the repaired add_tree partition invariance needs only "all trees rooted, or none"
+   (unrooted and undefined rooting may be mixed freely, whatever encode_bipartitions did before) *)
+Theorem merge_partition_invariant_repaired : forall (c : cfg) (rooted : bool) (trees : list trec) (parts : list (list trec)),
+  (c_rooting c = None \/ c_rooting c = Some rooted) ->
+  Forall (fun x => tr_rooted x = rooted /\ (c_ign_ages c = false -> tr_ages_err x = None)) trees ->
+  Permutation (concat parts) trees ->
+  exists m s,
+    collate (new_cfg c) (map (fun p => add_all (new_cfg c) (map norm_rooting p)) parts) = (m, None) /\
+    add_all (new_cfg c) (map norm_rooting trees) = (s, None) /\
+    same_summary m s.
+Proof. exact merge_partition_repaired_l. Qed.
+Print Assumptions merge_partition_invariant_repaired.
+
+Theorem undefined_rooting_repaired_example :
+  exists a b t1 t2,
+    a = fst (add_tree_r (new_cfg ex_cfg) (ex_rec None) None) /\
+    b = fst (add_tree_r (new_cfg ex_cfg) (ex_rec (Some false)) None) /\
+    (exists t', update a b = (t', None)) /\ (exists t', update b a = (t', None)) /\
+    add_all (new_cfg ex_cfg) (map norm_rooting [ex_rec None; ex_rec (Some false)]) = (t1, None) /\
+    add_all (new_cfg ex_cfg) (map norm_rooting [ex_rec (Some false); ex_rec None]) = (t2, None).
+Proof. exact undefined_rooting_repaired_example_l. Qed.
+Print Assumptions undefined_rooting_repaired_example.
+
 (* 3. Partition invariance.  For trees that all reach add_tree with the same rooting r (and
       arrays created with is_rooted_trees = None or r, identical settings): split the sample into
       ANY sub-lists (any of them empty, any order inside and between them: every list `parts`
